@@ -27,6 +27,34 @@ func Text(f *ach.File, crlf bool) (string, error) {
 	return buf.String(), nil
 }
 
+// TextMode renders the file with one of the ways a caller can configure the line ending:
+// 0 NewWriter ("\n"); 1 NewWriterWithOpts(LineEnding "\r\n"); 2 NewWriter with the exported
+// LineEnding field set to "\r\n"; 3 NewWriterWithOpts("\r\n") with the field set back to "\n".
+// It returns the text and the line ending that was configured.
+func TextMode(f *ach.File, mode int) (string, string, error) {
+	var buf bytes.Buffer
+	var w *ach.Writer
+	le := "\n"
+	switch mode {
+	case 1:
+		w = ach.NewWriterWithOpts(&buf, &ach.WriteOpts{LineEnding: "\r\n"})
+		le = "\r\n"
+	case 2:
+		w = ach.NewWriter(&buf)
+		w.LineEnding = "\r\n"
+		le = "\r\n"
+	case 3:
+		w = ach.NewWriterWithOpts(&buf, &ach.WriteOpts{LineEnding: "\r\n"})
+		w.LineEnding = "\n"
+	default:
+		w = ach.NewWriter(&buf)
+	}
+	if err := w.Write(f); err != nil {
+		return "", le, err
+	}
+	return buf.String(), le, nil
+}
+
 // Parse reads text back with ach.NewReader (default options).
 func Parse(text string) (*ach.File, error) {
 	f, err := ach.NewReader(strings.NewReader(text)).Read()
